@@ -155,7 +155,9 @@ func scenarios(tier string) []engine.Scenario {
 	setUniverse(16, false)
 	for _, ch := range longChains() {
 		scs = append(scs, gadgetAccumulationScenario(ch))
-		scs = append(scs, gadgetRecombineScenario(ch, len(ch.Q), len(ch.P)))
+		if len(ch.Q) <= 12 { // the big-integer alphabets of the recombination oracle are too slow on the 24/48-prime chains
+			scs = append(scs, gadgetRecombineScenario(ch, len(ch.Q), len(ch.P)))
+		}
 	}
 	return scs
 }
